@@ -50,7 +50,7 @@ type kv struct{ P, V string }
 
 type flat struct{ l []kv }
 
-func (f *flat) s(p, v string)           { f.l = append(f.l, kv{p, v}) }
+func (f *flat) s(p, v string)             { f.l = append(f.l, kv{p, v}) }
 func (f *flat) n(p string, v interface{}) { f.l = append(f.l, kv{p, fmt.Sprint(v)}) }
 
 // firstDiff returns the first position where the two flattened values differ.
@@ -76,7 +76,9 @@ func firstDiff(exp, got []kv) (path, e, g string, same bool) {
 	return "", "", "", true
 }
 
-// stripIdx removes list indices from a path so that it can serve as a stable key.
+// stripIdx turns a path into a stable key: list indices are removed and the nesting of body
+// structures (children / message bodies at any depth) is collapsed, so that one defect has one
+// key wherever in a tree it shows.
 func stripIdx(p string) string {
 	var sb strings.Builder
 	skip := false
@@ -90,7 +92,16 @@ func stripIdx(p string) string {
 			sb.WriteByte(p[i])
 		}
 	}
-	return sb.String()
+	s := sb.String()
+	for {
+		t := strings.Replace(s, ".children.", ".", -1)
+		t = strings.Replace(t, ".msg.body.", ".", -1)
+		if t == s {
+			break
+		}
+		s = t
+	}
+	return s
 }
 
 func q(s string) string {
